@@ -36,10 +36,28 @@ class _Continue(Exception):
 class PyInterp(Interp):
     """`Interp` plus: for loops, break/continue, lists and their methods, comprehensions, module-level functions."""
 
-    def __init__(self, ctx, oracle, module):
+    def __init__(self, ctx, oracle, module, module_state: dict | None = None):
         super().__init__(ctx, oracle)
         self.module = module
         self.steps = 0
+        # module-level objects live as long as the process: shared by every evaluation that is given the same dict,
+        # so a function that hands out (and later mutates) a module-level list shows up as a wrong answer later on
+        self.module_state = module_state if module_state is not None else {}
+
+    def _global(self, name: str):
+        if name in self.module_state:
+            return self.module_state[name]
+        for s in self.module.tree.body:
+            tgt = val = None
+            if isinstance(s, ast.Assign) and len(s.targets) == 1 and isinstance(s.targets[0], ast.Name):
+                tgt, val = s.targets[0].id, s.value
+            elif isinstance(s, ast.AnnAssign) and isinstance(s.target, ast.Name) and s.value is not None:
+                tgt, val = s.target.id, s.value
+            if tgt == name:
+                v = self.eval(val, {})
+                self.module_state[name] = v
+                return v
+        raise AnalysisError(f"bound evaluator: unknown name `{name}`")
 
     def block(self, stmts, env, f) -> None:
         for s in stmts:
@@ -86,6 +104,8 @@ class PyInterp(Interp):
             raise AnalysisError(f"{f.key}: cannot bind `{src(target)}`")
 
     def eval(self, n: ast.expr, env: dict):
+        if isinstance(n, ast.Name) and n.id not in env and n.id not in ("True", "False", "None"):
+            return self._global(n.id)
         if isinstance(n, ast.List):
             return [self.eval(e, env) for e in n.elts]
         if isinstance(n, ast.Tuple):
@@ -324,10 +344,11 @@ def _decide(ctx: Ctx):
         raise AnalysisError("flatten_logical_and is missing")
     bad_fold = bad_flat = None
     n_fold = n_flat = 0
+    module_state: dict = {}
     for t in trees:
         values = [_value(t, a) for a in _ASSIGNMENTS]
         # ---- as_trivial
-        interp = PyInterp(ctx, Oracle([]), pmod)
+        interp = PyInterp(ctx, Oracle([]), pmod, module_state)
         try:
             meth = m.method(t.cls, "as_trivial")
             got = interp.call_function(meth, t, [], {})
@@ -343,7 +364,10 @@ def _decide(ctx: Ctx):
         except _NeedChoice:
             raise AnalysisError("as_trivial depends on a predicate the evaluator cannot decide")
         # ---- flatten_logical_and
-        interp = PyInterp(ctx, Oracle([]), pmod)
+        if bad_flat is not None:
+            continue
+        interp = PyInterp(ctx, Oracle([]), pmod, module_state)
+        before = {k: (len(v) if isinstance(v, (list, dict, set)) else None) for k, v in module_state.items()}
         try:
             res = interp.call_function(flat, None, [t], {})
             n_flat += 1
@@ -361,6 +385,9 @@ def _decide(ctx: Ctx):
                         break
             else:
                 bad_flat = bad_flat or (t, f"flattens to {res!r}, neither False nor a list of predicates")
+            for k, v in module_state.items():
+                if isinstance(v, (list, dict, set)) and before.get(k) is not None and before[k] != len(v):
+                    bad_flat = bad_flat or (t, f"changes the module-level object `{k}` (it had {before[k]} element(s), now {len(v)}): every later call sees the leftovers")
         except Crash as e:
             bad_flat = bad_flat or (t, f"flatten_logical_and fails: {e}")
         except _NeedChoice:
